@@ -143,7 +143,11 @@ func (c05) Run(c *Ctx, i int) CaseResult {
 		policy := schedPolicies[k%len(schedPolicies)]
 		sc := NewSched(policy, c.Seed*977+int64(i)*131+int64(k))
 		fc := &FedCase{In: in}
-		rec := &TraceRec{}
+		var rec *TraceRec
+		if c.Tier == "quick" || k%3 == 0 {
+			// every scheduled execution of the quick tier, every third one otherwise, is recorded and replayed
+			rec = &TraceRec{}
+		}
 		f, err := NewFed(in.Spec, ref.Store, gateway.WithLogger(SchedLogger{S: sc, GateCollector: policy == "starve-collector", Rec: rec}))
 		if err != nil {
 			res.Fails = append(res.Fails, Failure{Channel: "harness", Classifier: "harness-error", What: err.Error(), Input: in})
